@@ -1,7 +1,9 @@
 import CogentModel.Json
 import CogentModel.Model.AnnotDb
 import CogentModel.Model.AnnotDbRoundTrip
-open CogentModel CogentModel.AnnotDb CogentModel.Gen.C17Sql
+import CogentModel.Model.AnnotDbX
+import CogentModel.Spec.AnnotDbX
+open CogentModel CogentModel.AnnotDb CogentModel.AnnotDbSpec CogentModel.Gen.C17Sql
 
 def optStr : J → Except String (Option String)
   | .null => pure none
@@ -122,8 +124,91 @@ def runOps : List Db → List J → Except String (List Db × Option String)
     | [J.str "copy", i] => do runOps (dbs ++ [← get i]) ops
     | _ => throw "bad op"
 
+/-! extended model: rows without location, on_alignment, GenBank record loading, children / parent -/
+
+def optBool : J → Except String (Option Bool)
+  | .null => pure none
+  | b => do pure (some (← b.toBool))
+
+def parseXRec (j : J) : Except String XRec := do
+  let located ← (← j.get "located").toBool
+  let row : Rec ← if located then parseRec j else
+    pure { seqid := ← optStr (getOpt j "seqid"), biotype := ← optStr (getOpt j "biotype"),
+           name := ← optStr (getOpt j "name"), strand := ← optStr (getOpt j "strand"),
+           attrs := ← optStr (getOpt j "attrs"), spans := [], start := 0, stop := 0 }
+  pure { row := row, located := located, onAln := ← optBool (getOpt j "on_alignment") }
+
+def xrecJ (r : XRec) : J :=
+  J.obj [("seqid", ofOptStr r.row.seqid), ("biotype", ofOptStr r.row.biotype), ("name", ofOptStr r.row.name),
+         ("strand", ofOptStr r.row.strand), ("attrs", ofOptStr r.row.attrs),
+         ("spans", if r.located then spansJ r.row.spans else .null),
+         ("start", if r.located then J.num r.row.start else .null),
+         ("stop", if r.located then J.num r.row.stop else .null),
+         ("located", J.bool r.located),
+         ("on_alignment", match r.onAln with | none => .null | some b => J.bool b)]
+
+def parseXDb (j : J) : Except String XDb := do
+  pure { kind := ← parseKind (← j.get "kind"), main := ← (← j.get "main").toListOf parseXRec,
+         user := ← (← j.get "user").toListOf parseXRec }
+
+def xdbJ (db : XDb) : J :=
+  J.obj [("kind", J.str (kindStr db.kind)), ("main", J.arr (db.main.map xrecJ)), ("user", J.arr (db.user.map xrecJ))]
+
+def exceptJ {α} (f : α → J) : Except Err α → J
+  | .ok a => f a
+  | .error e => J.str ("raised " ++ errStr e)
+
+def parseFeature (j : J) : Except String GbFeature := do
+  let loc ← match getOpt j "loc" with | .null => pure none | l => do pure (some (← parseLoc l))
+  let names ← match getOpt j "names" with | .null => pure none | l => do pure (some (← l.toListOf J.toStr))
+  pure { biotype := ← (← j.get "biotype").toStr, loc := loc, names := names, attrs := "" }
+
+/-- a sequence of `GenbankAnnotationDb(data=.., seqid=.., db=db)` (new instance: the made-up-name counter
+starts at 0) and `db.add_records(.., seqid)` (same instance: the counter runs on) calls -/
+def runGbCalls : Nat → List J → Except String (List XRec)
+  | _, [] => pure []
+  | n, c :: cs => do
+    let fresh ← (← c.get "new").toBool
+    let feats ← (← c.get "feats").toListOf parseFeature
+    let (rows, n') := gbAddRecords (← (← c.get "seqid").toStr) (if fresh then 0 else n) feats
+    pure (rows ++ (← runGbCalls n' cs))
+
 def handle (cmd : String) (j : J) : Except String J :=
   match cmd with
+  | "xq" => do
+    let db ← parseXDb (← j.get "db")
+    let qs ← (← j.get "qs").toList
+    let out ← qs.mapM fun qj => do
+      let q ← parseQuery qj
+      let oa ← optBool (getOpt qj "on_alignment")
+      pure (J.obj [("features", exceptJ (fun l => J.arr (l.map xrecJ)) (getFeaturesMatchingX db q oa)),
+                   ("records", exceptJ (fun l => J.arr (l.map xrecJ)) (getRecordsMatchingX db q oa)),
+                   ("num", exceptJ (fun (n : Nat) => J.num n) (numMatchesX db q oa)),
+                   ("subset", xdbJ (subsetX db q)),
+                   -- the SPEC's answer (accepted instead of a mirrored exception of an open finding)
+                   ("scan", J.arr ((xLinearScan db.records q oa).map xrecJ)),
+                   ("scan_num", J.num (xLinearScan db.records { q with start := none, stop := none } oa).length)])
+    pure (J.arr out)
+  | "gbadd" => do
+    pure (J.arr ((← runGbCalls 0 (← (← j.get "calls").toList)).map xrecJ))
+  | "family" => do
+    let db ← parseXDb (← j.get "db")
+    let ps ← (← j.get "probes").toList
+    let out ← ps.mapM fun p => do
+      let name ← (← p.get "name").toStr
+      let a ← (← p.get "start").toInt
+      let b ← (← p.get "stop").toInt
+      let excl ← optStr (getOpt p "exclude_biotype")
+      -- `alt`: the answer when rows without location are simply not candidates (accepted instead of a mirrored
+      -- TypeError of the open finding)
+      let dbl : XDb := { db with main := db.main.filter (·.located), user := db.user.filter (·.located) }
+      let f := fun l => J.arr (l.map xrecJ)
+      match ← (← p.get "method").toStr with
+      | "children" => do
+        let bt ← optStr (getOpt p "biotype")
+        pure (J.obj [("res", exceptJ f (gbChildrenX db name bt excl a b)), ("alt", exceptJ f (gbChildrenX dbl name bt excl a b))])
+      | _ => pure (J.obj [("res", exceptJ f (gbParentX db name excl a b)), ("alt", exceptJ f (gbParentX dbl name excl a b))])
+    pure (J.arr out)
   | "sql" => do
     let s ← (← j.get "s").toInt; let e ← (← j.get "e").toInt
     let a ← (← j.get "a").toInt; let b ← (← j.get "b").toInt
